@@ -286,6 +286,77 @@ def run(ctx):
     txt = ast.unparse(fs.node).replace('"', "'")
     ok = "isinstance(recycle, dict)" in txt and "recycle['bus_pq']" in txt and "recycle['gen']" in txt
     ctx.ob(R4, "pandapower.pf.run_newton_raphson_pf::_get_Sbus::guard", ok, "stored Sbus reuse depends on recycle['bus_pq'] and recycle['gen']", fs.loc())
+    rule_batch_sibling(ctx)
+    rule_output_writer(ctx)
+
+
+def rule_output_writer(ctx):
+    from ppsa.astutil import norm, fold, NOFOLD
+    R = "OW-LOG"
+    ctx.rule(R, "OutputWriter._log copies the whole result column positionally only when the logged index equals the table index "
+                "(index.equals), otherwise it selects by label; the throw-away ppc that sizes the batch voltage log is built with the "
+                "connectivity check that runpp applies by default (same number of ppci buses)")
+    OW = "pandapower.timeseries.output_writer"
+    fi = ctx.repo.func(f"{OW}:OutputWriter._log")
+    found = 0
+    for n in ast.walk(fi.node):
+        if isinstance(n, ast.If) and any(isinstance(st, ast.Assign) and norm(st.value, 60).replace(" ", "") == "net[table][variable].values" for st in n.body):
+            found += 1
+            t = norm(n.test, 120).replace(" ", "")
+            ok = ".index.equals(" in t and "index" in t.split(".index.equals(")[1]
+            ctx.ob(R, f"{OW}::OutputWriter._log::fast-path", ok,
+                   f"whole column taken when `{t}`" if ok else
+                   f"whole column taken when `{t}`: an index selection of the same length in another order gets the values of other elements", fi.loc(n))
+    if not found:
+        ctx.fail("OutputWriter._log: positional fast path not found")
+    fp = ctx.repo.func(f"{OW}:OutputWriter._init_ppc_logging")
+    opt = None
+    for st in ast.walk(fp.node):
+        if isinstance(st, ast.Assign) and norm(st.targets[0], 20) == "options" and isinstance(st.value, ast.Call) and norm(st.value.func, 10) == "dict":
+            opt = {k.arg: fold(k.value) for k in st.value.keywords if k.arg}
+    ok = opt is not None and opt.get("check_connectivity") is True
+    ctx.ob(R, f"{OW}::OutputWriter._init_ppc_logging::sizing-ppc", ok, f"options of the sizing ppc: check_connectivity={opt.get('check_connectivity') if opt else '?'}", fp.loc())
+
+
+def rule_batch_sibling(ctx):
+    """the batch readers recompute currents-to-loading with their own copies of the result formulas: the rating terms must be the
+    ones the regular result writers use, otherwise a batch-read time series differs from a fresh power flow of the same step"""
+    from ppsa.astutil import norm, inline_locals
+    R = "BATCH-SIBLING"
+    ctx.rule(R, "read_batch_results.get_batch_line_results / get_batch_trafo_results use the rating expressions of "
+                "results_branch._get_line_results / _get_trafo_results: i_max = max_i_ka * df * parallel; loading_percent = ld_trafo / "
+                "parallel / df; per-side loading = i * vn * sqrt(3) / sn_mva * 100")
+    RB_ = "pandapower.results_branch"
+    BR_ = "pandapower.timeseries.read_batch_results"
+
+    def assign(fi, name):
+        for st in ast.walk(fi.node):
+            if isinstance(st, ast.Assign) and len(st.targets) == 1 and isinstance(st.targets[0], ast.Name) and st.targets[0].id == name:
+                return st
+        return None
+
+    def cols(e):
+        return sorted({c.value for c in ast.walk(e) if isinstance(c, ast.Constant) and isinstance(c.value, str)})
+    a = assign(ctx.repo.func(f"{RB_}:_get_line_results"), "i_max")
+    b = assign(ctx.repo.func(f"{BR_}:get_batch_line_results"), "i_max")
+    if a is None or b is None:
+        ctx.fail("BATCH-SIBLING: i_max of the line results not found")
+    ctx.ob(R, f"{BR_}::get_batch_line_results::i_max", cols(a.value) == cols(b.value) and norm(a.value, 200) == norm(b.value, 200),
+           f"batch: {norm(b.value, 90)}; regular: {norm(a.value, 90)}", ctx.repo.func(f"{BR_}:get_batch_line_results").loc(b))
+    fa, fb = ctx.repo.func(f"{RB_}:_get_trafo_results"), ctx.repo.func(f"{BR_}:get_batch_trafo_results")
+    a, b = assign(fa, "loading_percent"), assign(fb, "loading_percent")
+    if a is None or b is None:
+        ctx.fail("BATCH-SIBLING: loading_percent of the trafo results not found")
+    ctx.ob(R, f"{BR_}::get_batch_trafo_results::loading_percent", norm(a.value, 200) == norm(b.value, 200),
+           f"batch: {norm(b.value, 100)}; regular: {norm(a.value, 100)}", fb.loc(b))
+    for side, vn in (("s_hv", "vn_hv_kv"), ("s_lv", "vn_lv_kv")):
+        st = assign(fb, side)
+        t = norm(st.value, 200).replace(" ", "") if st is not None else ""
+        ok = st is not None and vn in t and "sqrt(3)" in t and "/sn_mva*100" in t
+        ctx.ob(R, f"{BR_}::get_batch_trafo_results::{side}", ok, f"{side} = {t}", fb.loc(st) if st is not None else fb.loc())
+    sn = assign(fb, "sn_mva")
+    ctx.ob(R, f"{BR_}::get_batch_trafo_results::sn_mva", sn is not None and norm(sn.value, 80).replace(" ", "").replace('"', "'") == "net['trafo']['sn_mva'].values",
+           f"sn_mva = {norm(sn.value, 60) if sn is not None else '?'}", fb.loc())
 
 
 def variants(repo):
@@ -294,6 +365,10 @@ def variants(repo):
     nr = "pandapower/pf/run_newton_raphson_pf.py"
     V = Variant
     return [
+        V("log fast path chosen by length", "pandapower/timeseries/output_writer.py", replace_once("if net[table].index.equals(pd.Index(index)):", "if len(index) == len(net[table]):"), "OW-LOG"),
+        V("sizing ppc without connectivity check", "pandapower/timeseries/output_writer.py", replace_once("enforce_q_lims=False, check_connectivity=True,", "enforce_q_lims=False, check_connectivity=False,"), "OW-LOG"),
+        V("batch line loading without derating factor", "pandapower/timeseries/read_batch_results.py", replace_once('i_max = line_df["max_i_ka"].values * line_df["df"].values * line_df["parallel"].values', 'i_max = line_df["max_i_ka"].values * line_df["parallel"].values'), "BATCH-SIBLING"),
+        V("batch trafo loading without parallel", "pandapower/timeseries/read_batch_results.py", replace_once('loading_percent = ld_trafo / net["trafo"]["parallel"].values / net["trafo"]["df"].values', 'loading_percent = ld_trafo / net["trafo"]["df"].values'), "BATCH-SIBLING"),
         V("trafo3w rebuilt only without trafo", "pandapower/powerflow.py", in_function("_recycled_powerflow", replace_once('        if "trafo3w" in lookup:', '        elif "trafo3w" in lookup:')), "RECYCLE-RERUN"),
         V("batch read with active tap changer", rt, replace_once('variable not in BATCH_READ_VARIABLES[table] or recycle["trafo"] \\\n                or len(output) > 2:', 'variable not in BATCH_READ_VARIABLES[table] or len(output) > 2:'), "no-batch-with-trafo-flag"),
         V("ppc kept when the divergence is tolerated", "pandapower/control/run_control.py", in_function("_evaluate_net", lambda s: s.replace("        net._ppc = None\n", "", 1).replace("        else:\n            raise err", "        else:\n            net._ppc = None\n            raise err", 1)), "DIVERGED-PPC"),
